@@ -28,6 +28,16 @@ Record sconf := {
 }.
 
 Inductive ares := ARole | AUnknown | ARound (data : nat) | AErr.
+
+(* What the Authenticate callback actually returns is a record with two independent fields: the
+   role (0 = left unset, 1 = "unknown", 2 = a domain role) and optional round-trip data.
+   authenticateSession's decision: a set, known role means success whatever else is there;
+   otherwise round-trip data asks for another round; otherwise the authentication failed. *)
+Definition classify (role : nat) (rt : option nat) : ares :=
+  match role with
+  | S (S _) => ARole
+  | _ => match rt with Some d => ARound d | None => AUnknown end
+  end.
 Inductive rres := RNode (n : nat) | RegErr.
 (* the configured callbacks: arbitrary functions *)
 Record oracle := {
